@@ -1090,25 +1090,36 @@ def _sort(I, ci, v):
     return UNIT
 
 
+def _get_items(pv):
+    return list(pv.items) if isinstance(pv, VecObj) else pv.items()
+
+
+def _set_items(pv, xs):
+    if isinstance(pv, VecObj):
+        pv.items[:] = xs
+    else:
+        pv.back[pv.lo:pv.hi] = xs
+
+
 @model('slice::sort_by', 'Vec::sort_by', 'slice::sort_unstable_by')
 def _sort_by(I, ci, v, f):
     pv = peel(v)
-    pv.items[:] = sort_items(I, pv.items, lambda a, b: I.call_value(f, [ValPtr(a), ValPtr(b)]))
+    _set_items(pv, sort_items(I, _get_items(pv), lambda a, b: I.call_value(f, [ValPtr(a), ValPtr(b)])))
     return UNIT
 
 
 @model('slice::sort_by_key', 'Vec::sort_by_key', 'slice::sort_unstable_by_key')
 def _sort_by_key(I, ci, v, f):
     pv = peel(v)
-    pv.items[:] = sort_items(I, pv.items, lambda a, b: do_cmp(I, I.call_value(f, [ValPtr(a)]),
-                                                             I.call_value(f, [ValPtr(b)])))
+    _set_items(pv, sort_items(I, _get_items(pv), lambda a, b: do_cmp(I, I.call_value(f, [ValPtr(a)]),
+                                                                      I.call_value(f, [ValPtr(b)]))))
     return UNIT
 
 
 @model('slice::reverse', 'Vec::reverse')
 def _reverse_slice(I, ci, v):
     pv = peel(v)
-    pv.items.reverse()
+    _set_items(pv, list(reversed(_get_items(pv))))
     return UNIT
 
 
